@@ -78,3 +78,22 @@ def snapshot(obj):
             v = getattr(obj, name)
             out.append((name, np.array(v).copy().tolist() if not np.isscalar(v) else v))
     return out
+
+
+def embed_ops(small, pos, n):
+    """the map on n qubits that acts as `small` (a map on len(pos) qubits) on the qubits `pos` (ascending) and as the identity elsewhere"""
+    rows = []
+    for q in range(n):
+        if q in pos:
+            k = pos.index(q)
+            for r in (small[2 * k], small[2 * k + 1]):
+                l = ['I'] * n
+                for j, c in enumerate(r[0]):
+                    l[pos[j]] = c
+                rows.append((tuple(l), r[1]))
+        else:
+            for c in 'XZ':
+                l = ['I'] * n
+                l[q] = c
+                rows.append((tuple(l), 0))
+    return rows
